@@ -31,7 +31,14 @@ PROVIDERS = {
     # "compliance" presets are): they share endpoints, not their name, state or credentials
     "presetA": {"pkce": False, "openid": False, "preset": True},
     "presetB": {"pkce": False, "openid": False, "preset": True},
+    # an OpenID login decided at call time: the registered default scope has no "openid", the application passes scope="openid profile"
+    # to authorize_redirect -- a nonce is made, kept and checked as for a client registered with the openid scope
+    "lateoidc": {"pkce": False, "openid": True, "late_scope": True},
 }
+
+
+def begin_kwargs(prov):
+    return {"scope": "openid profile"} if PROVIDERS[prov].get("late_scope") else {}
 
 
 def register_kwargs(name, oauth=None):
@@ -50,7 +57,7 @@ def register_kwargs(name, oauth=None):
     if o["pkce"]:
         ck["code_challenge_method"] = "S256"
     if o["openid"]:
-        ck["scope"] = "openid profile"
+        ck["scope"] = "openid profile" if not o.get("late_scope") else "profile"
     kw = dict(client_id="cid-" + name, client_secret="sec", access_token_url="https://%s.example/token" % name,
               authorize_url="https://%s.example/authorize" % name, client_kwargs=ck)
     if o["openid"]:
@@ -220,11 +227,11 @@ class FlaskAdapter(Base):
         from flask import session
         with self._ctx(sess), patched_send(self.provider):
             session.update(self.sessions[sess])
-            resp = getattr(self.oauth, prov).authorize_redirect(redirect)
+            resp = getattr(self.oauth, prov).authorize_redirect(redirect, **begin_kwargs(prov))
             self.sessions[sess] = dict(session)
         return self.record_begin(prov, resp.headers["Location"], redirect)
 
-    def callback(self, sess, prov, ref, code, provider_fails=False, aat_kwargs=None):
+    def callback(self, sess, prov, ref, code, provider_fails=False, aat_kwargs=None, post=False):
         from flask import session
         self.provider.fail_next = provider_fails
         st = self.state_string(ref)
@@ -237,7 +244,10 @@ class FlaskAdapter(Base):
             if st is not None:
                 q["state"] = st
         n = len(self.provider.log)
-        with self._ctx(sess, "/cb?" + up.urlencode(q)), patched_send(self.provider):
+        # post: the provider answered with response_mode=form_post -- code and state arrive in the body of a POST
+        post = post and not PROVIDERS[prov].get("oauth1")
+        rctx = self.app.test_request_context("/cb", method="POST", data=q) if post else self._ctx(sess, "/cb?" + up.urlencode(q))
+        with rctx, patched_send(self.provider):
             session.update(self.sessions[sess])
             try:
                 token = getattr(self.oauth, prov).authorize_access_token(**(aat_kwargs or {}))
@@ -284,10 +294,10 @@ class DjangoAdapter(Base):
 
     def begin(self, sess, prov, redirect):
         with patched_send(self.provider):
-            resp = getattr(self.oauth, prov).authorize_redirect(self._request(sess, "/login"), redirect)
+            resp = getattr(self.oauth, prov).authorize_redirect(self._request(sess, "/login"), redirect, **begin_kwargs(prov))
         return self.record_begin(prov, resp["Location"], redirect)
 
-    def callback(self, sess, prov, ref, code, provider_fails=False, aat_kwargs=None):
+    def callback(self, sess, prov, ref, code, provider_fails=False, aat_kwargs=None, post=False):
         self.provider.fail_next = provider_fails
         st = self.state_string(ref)
         if PROVIDERS[prov].get("oauth1"):
@@ -301,7 +311,13 @@ class DjangoAdapter(Base):
         n = len(self.provider.log)
         with patched_send(self.provider):
             try:
-                token = getattr(self.oauth, prov).authorize_access_token(self._request(sess, "/cb?" + up.urlencode(q)), **(aat_kwargs or {}))
+                if post and not PROVIDERS[prov].get("oauth1"):
+                    from django.test import RequestFactory
+                    dreq = RequestFactory().post("/cb", data=q)
+                    dreq.session = self.sessions[sess]
+                else:
+                    dreq = self._request(sess, "/cb?" + up.urlencode(q))
+                token = getattr(self.oauth, prov).authorize_access_token(dreq, **(aat_kwargs or {}))
                 out = ("token", token)
             except Exception as e:  # noqa: BLE001
                 out = ("error", type(e).__name__, str(e))
@@ -340,10 +356,10 @@ class StarletteAdapter(Base):
         return Request(scope)
 
     def begin(self, sess, prov, redirect):
-        resp = asyncio.run(getattr(self.oauth, prov).authorize_redirect(self._request(sess, "/login"), redirect))
+        resp = asyncio.run(getattr(self.oauth, prov).authorize_redirect(self._request(sess, "/login"), redirect, **begin_kwargs(prov)))
         return self.record_begin(prov, resp.headers["location"], redirect)
 
-    def callback(self, sess, prov, ref, code, provider_fails=False, aat_kwargs=None):
+    def callback(self, sess, prov, ref, code, provider_fails=False, aat_kwargs=None, post=False):
         self.provider.fail_next = provider_fails
         st = self.state_string(ref)
         if PROVIDERS[prov].get("oauth1"):
